@@ -10,10 +10,10 @@ import (
 	"time"
 
 	quic "github.com/refraction-networking/uquic"
-	tls "github.com/refraction-networking/utls"
 	"github.com/refraction-networking/uquic/internal/verif/simworld"
 	"github.com/refraction-networking/uquic/internal/verif/wiretap"
 	"github.com/refraction-networking/uquic/internal/verifhook"
+	tls "github.com/refraction-networking/utls"
 )
 
 // ConnCase is one end-to-end case: a world, one connection, one application script.
@@ -394,6 +394,119 @@ func RunDialSeriesOverlap(opt Options, n int, ts TransferSpec, idle time.Duratio
 	res.FaultsApplied, _ = w.Router.FaultsApplied()
 	w.Close()
 	time.Sleep(3 * time.Second)
+	if w.Wire != nil {
+		res.Taps = w.Wire.Snapshot()
+	}
+	res.RouterLog = w.Router.Log
+	for _, v := range verifhook.TakePoolViolations() {
+		res.Dials[n-1].Viols = append(res.Dials[n-1].Viols, Viol{"pool|" + strings.ReplaceAll(v.What, " ", "-") + "|" + v.Kind, v.String()})
+	}
+	return res
+}
+
+// RunDialsSimultaneous starts n dials at the same instant on one client transport (one spec value) and
+// runs the application script on all n connections concurrently.  Client and server connections are paired
+// by the TLS server name (c<i>.test).
+func RunDialsSimultaneous(opt Options, n int, ts TransferSpec, idle time.Duration, connIdxBase int) *SeriesResult {
+	res := &SeriesResult{}
+	verifhook.TakePoolViolations()
+	w, err := New(opt)
+	if err != nil {
+		res.WorldErr = err
+		return res
+	}
+	ctx, cancel := context.WithTimeout(context.Background(), 120*time.Second)
+	res.Dials = make([]DialResult, n)
+	clients := make([]*quic.Conn, n)
+	servers := make([]*quic.Conn, n)
+	var smu sync.Mutex
+	var awg sync.WaitGroup
+	actx, acancel := context.WithCancel(ctx)
+	awg.Add(1)
+	go func() {
+		defer awg.Done()
+		for got := 0; got < n; got++ {
+			sc, err := w.Accept(actx)
+			if err != nil {
+				return
+			}
+			name := sc.ConnectionState().TLS.ServerName
+			var i int
+			if _, err := fmt.Sscanf(name, "c%d.test", &i); err != nil || i < 0 || i >= n {
+				continue
+			}
+			smu.Lock()
+			servers[i] = sc
+			smu.Unlock()
+		}
+	}()
+	var dwg sync.WaitGroup
+	for i := 0; i < n; i++ {
+		res.Dials[i].Index = i
+		dwg.Add(1)
+		go func() {
+			defer dwg.Done()
+			clients[i], res.Dials[i].DialErr = w.DialName(ctx, fmt.Sprintf("c%d.test", i))
+		}()
+	}
+	dwg.Wait()
+	// every dial that succeeded has a server side, possibly a moment later
+	for k := 0; k < 200; k++ {
+		missing := false
+		smu.Lock()
+		for i := 0; i < n; i++ {
+			missing = missing || (clients[i] != nil && servers[i] == nil)
+		}
+		smu.Unlock()
+		if !missing {
+			break
+		}
+		time.Sleep(50 * time.Millisecond)
+	}
+	acancel()
+	awg.Wait()
+	var wg sync.WaitGroup
+	for i := 0; i < n; i++ {
+		dr := &res.Dials[i]
+		if dr.DialErr != nil {
+			continue
+		}
+		if servers[i] == nil {
+			dr.AcceptErr = fmt.Errorf("no accepted connection with server name c%d.test", i)
+			continue
+		}
+		wg.Add(1)
+		go func() {
+			defer wg.Done()
+			dr.Transfer = RunTransfer(ctx, clients[i], servers[i], connIdxBase+i, ts)
+			dr.Viols = append(dr.Viols, dr.Transfer.Viols...)
+		}()
+	}
+	wg.Wait()
+	if idle > 0 {
+		time.Sleep(idle)
+	}
+	for i := 0; i < n; i++ {
+		if clients[i] != nil && clients[i].Context().Err() != nil {
+			res.Dials[i].ClientCauseAfterIdle = context.Cause(clients[i].Context())
+		}
+		if servers[i] != nil && servers[i].Context().Err() != nil {
+			res.Dials[i].ServerCauseAfterIdle = context.Cause(servers[i].Context())
+		}
+	}
+	cancel()
+	for i := 0; i < n; i++ {
+		if clients[i] != nil {
+			clients[i].CloseWithError(0, "")
+		}
+		if servers[i] != nil {
+			servers[i].CloseWithError(0, "")
+		}
+	}
+	time.Sleep(200 * time.Millisecond)
+	res.FaultsApplied, _ = w.Router.FaultsApplied()
+	w.Close()
+	time.Sleep(3*time.Second + 60*opt.RTT)
 	if w.Wire != nil {
 		res.Taps = w.Wire.Snapshot()
 	}
